@@ -22,8 +22,9 @@ class Harness:
     name = 'K7.swap'
     mode = 'U'
 
-    def __init__(self, N=4, L=2, x=0, K=2, nondet=False, by='level'):
+    def __init__(self, N=4, L=2, x=0, K=2, nondet=False, by='level', handle=False):
         self.N, self.L, self.x, self.K, self.nondet, self.by = N, L, x, K, nondet, by
+        self.handle = handle
 
     def install(self):
         self.B = base.import_dd('dd.bdd')
@@ -45,10 +46,24 @@ class Harness:
 
         def extract(model):
             case = m.extract(model)
-            case['args'] = dict(x=X, by=self.by)
+            case['args'] = dict(x=X, by=self.by, hnode=base.ev_int(model, hnode))
             case['harness'] = 'k7_swap'
             return case
 
+        # a live dd.autoref handle on a held node, whose views were read
+        # before the swap (C08: live Functions stay valid through reorderings)
+        A = base.import_dd('dd.autoref')
+        hnode = z3.Int('hnode')
+        if self.handle:
+            c.assume(z3.And(hnode >= 2, hnode <= N, z3.Select(st0.P, hnode), z3.Select(ext, hnode) > 0))
+            abdd = A.BDD.__new__(A.BDD)
+            abdd._bdd = bdd
+            abdd.vars = bdd.vars
+            fh = A.Function.__new__(A.Function)
+            fh.node, fh.bdd, fh.manager = SymInt(hnode), abdd, bdd      # its reference is part of EXT
+            views_before = (fh.var, int(fh.level), bool(fh.negated))
+        else:
+            c.assume(hnode == 0)
         exc = ret = None
         try:
             if self.by == 'level':
@@ -76,7 +91,16 @@ class Harness:
         ok_vars = (dict(bdd.vars) == want_vars and
                    dict(bdd._level_to_var) == {i: nm for nm, i in want_vars.items()})
         old_n, new_n = ret
+        handle_ok = True
+        if self.handle:
+            fresh = A.Function.__new__(A.Function)
+            fresh.node, fresh.bdd, fresh.manager = SymInt(hnode), abdd, bdd
+            lv_after = int(fh.level)
+            handle_ok = (fh.var == fresh.var == bdd._level_to_var[lv_after]
+                         and int(fresh.level) == lv_after)
+            fh.node = fresh.node = None          # no decref on disposal: the harness owns no count
         goals = [
+            Goal('live_handle_views_follow_the_new_order', z3.BoolVal(handle_ok)),
             Goal('held_nodes_keep_number_and_function', z3.And(keep)),
             Goal('reduced_ordered', m.g_inv_struct()),
             Goal('unique_table_sound', m.g_pred_sound()),
@@ -109,6 +133,16 @@ def replay(case):
     by = case['args'].get('by', 'level')
     held = [k for k, e in ext.items() if e > 0 and k in bdd._succ]
     tts = {k: concrete.tt_named(bdd, k, names) for k in held}
+    import dd.autoref as A
+    hnode = case['args'].get('hnode')
+    fh = None
+    if hnode in held:
+        abdd = A.BDD.__new__(A.BDD)
+        abdd._bdd = bdd
+        abdd.vars = bdd.vars
+        fh = A.Function.__new__(A.Function)
+        fh.node, fh.bdd, fh.manager = hnode, abdd, bdd
+        fh.var, fh.level, fh.negated
     exc = None
     with warnings.catch_warnings(record=True) as wl:
         warnings.simplefilter('always')
@@ -138,6 +172,14 @@ def replay(case):
         if concrete.tt_named(bdd, k, names) != tts[k]:
             return dict(violates=True, key='swap/changes-function',
                         detail=f'{call}: held node {k} denotes another function', observed=obs)
+    if fh is not None:
+        lv = bdd._succ[hnode][0]
+        got = (fh.var, fh.level)
+        fh.node = None
+        if got != (bdd._level_to_var[lv], lv):
+            return dict(violates=True, key='swap/live-handle-stale-view',
+                        detail=f'{call}: a Function on node {hnode} created before the swap reports var/level {got}, '
+                               f'the manager says {(bdd._level_to_var[lv], lv)}', observed=obs)
     if wl:
         return dict(violates=True, key='swap/decref-warning', detail=f'{call}: {wl[0].message}', observed=obs)
     bad = concrete.check_inv(bdd, ext)
